@@ -1,6 +1,8 @@
 /-
   Lemmas/BezierPure.lean — the Bezier scratch buffers (`BezierBuffers`) never leak stale contents:
-  every cell `bezier_subdivide` / `bezier_approximate` read was written earlier in the same call.
+  every cell `bezier_subdivide` / `bezier_approximate` / `approximate_bspline` read was written earlier in the
+  same call. Proved by running two computations in lock step on buffers that differ arbitrarily and
+  tracking on which index ranges they agree (`Agr`). Structural: every `Scalar` instance.
 -/
 import RosuModel.Model.Curve
 import RosuModel.Lemmas.Outcome
@@ -39,5 +41,375 @@ theorem BezierBuffers.extendExact_len (b : BezierBuffers P) (n : Nat) : n ≤ (b
   split
   · assumption
   · simp only [List.length_append, List.length_replicate]; omega
+
+/-! ### agreement of two lists on an index range -/
+
+section Agr
+variable {α : Type}
+
+/-- `l` and `l'` hold the same cells on `[lo, hi)`. -/
+def Agr (lo hi : Nat) (l l' : List α) : Prop := ∀ j, lo ≤ j → j < hi → l[j]? = l'[j]?
+
+theorem Agr.triv (lo : Nat) (l l' : List α) : Agr lo lo l l' := fun _ h1 h2 => by omega
+
+theorem Agr.read {lo hi : Nat} {l l' : List α} (h : Agr lo hi l l') {j : Nat} (h1 : lo ≤ j) (h2 : j < hi)
+    (hl : j < l.length) : ∃ a, getI l j = .ok a ∧ getI l' j = .ok a := by
+  refine ⟨l[j], getI_eq l j hl, ?_⟩
+  apply getI_of_some
+  rw [← h j h1 h2, List.getElem?_eq_getElem hl]
+
+theorem Agr.set {lo hi : Nat} {l l' : List α} (h : Agr lo hi l l') (j : Nat) (x : α)
+    (hl : j < l.length) (hl' : j < l'.length) (lo' hi' : Nat)
+    (hcov : ∀ k, lo' ≤ k → k < hi' → k = j ∨ (lo ≤ k ∧ k < hi)) :
+    Agr lo' hi' (l.set j x) (l'.set j x) := by
+  intro k hk1 hk2
+  rw [List.getElem?_set, List.getElem?_set]
+  by_cases hjk : j = k
+  · subst hjk; simp [hl, hl']
+  · simp only [hjk, if_false]
+    rcases hcov k hk1 hk2 with h0 | ⟨h0, h0'⟩
+    · exact absurd h0.symm hjk
+    · exact h k h0 h0'
+
+theorem Agr.mono {lo hi lo' hi' : Nat} {l l' : List α} (h : Agr lo hi l l') (h1 : lo ≤ lo') (h2 : hi' ≤ hi) :
+    Agr lo' hi' l l' := fun j a b => h j (by omega) (by omega)
+
+theorem Agr.take_eq {n : Nat} {l l' : List α} (h : Agr 0 n l l') : l.take n = l'.take n := by
+  apply List.ext_getElem?
+  intro i
+  rw [List.getElem?_take, List.getElem?_take]
+  split
+  · exact h i (Nat.zero_le _) ‹_›
+  · rfl
+
+end Agr
+
+/-! ### `bezier_subdivide` in lock step -/
+
+theorem subdivInner_agree (n : Nat) : ∀ (rem j : Nat) (mid mid' : List (Pos P)),
+    j + rem + 1 ≤ n → n ≤ mid.length → n ≤ mid'.length → Agr 0 n mid mid' →
+    ∃ m m', subdivInner rem j mid = .ok m ∧ subdivInner rem j mid' = .ok m' ∧
+      m.length = mid.length ∧ m'.length = mid'.length ∧ Agr 0 n m m' := by
+  intro rem
+  induction rem with
+  | zero => intro j mid mid' _ _ _ h; exact ⟨mid, mid', rfl, rfl, rfl, rfl, h⟩
+  | succ rem ih =>
+    intro j mid mid' hj hl hl' h
+    obtain ⟨a, ha, ha'⟩ := h.read (j := j) (Nat.zero_le _) (by omega) (by omega)
+    obtain ⟨b, hb, hb'⟩ := h.read (j := j + 1) (Nat.zero_le _) (by omega) (by omega)
+    have hs := setI_eq mid j ((a + b).sdiv (2 : P)) (by omega)
+    have hs' := setI_eq mid' j ((a + b).sdiv (2 : P)) (by omega)
+    obtain ⟨m, m', h1, h2, h3, h4, h5⟩ :=
+      ih (j + 1) (mid.set j ((a + b).sdiv (2 : P))) (mid'.set j ((a + b).sdiv (2 : P))) (by omega)
+        (by rw [List.length_set]; exact hl) (by rw [List.length_set]; exact hl')
+        (h.set j _ (by omega) (by omega) 0 n (fun k hk1 hk2 => Or.inr ⟨hk1, hk2⟩))
+    refine ⟨m, m', ?_, ?_, by rw [h3, List.length_set], by rw [h4, List.length_set], h5⟩
+    · simp only [subdivInner, ha, hb, hs, Outcome.ok_bind]; exact h1
+    · simp only [subdivInner, ha', hb', hs', Outcome.ok_bind]; exact h2
+
+/-- relation between the two runs when the outer loop is about to execute `i, i-1, …, 1`. -/
+structure SubRel (count i : Nat) (l r mid l' r' mid' : List (Pos P)) : Prop where
+  ll : count ≤ l.length
+  lr : count ≤ r.length
+  lm : count ≤ mid.length
+  ll' : count ≤ l'.length
+  lr' : count ≤ r'.length
+  lm' : count ≤ mid'.length
+  am : Agr 0 (i + 1) mid mid'
+  al : Agr 0 (count - 1 - i) l l'
+  ar : Agr (i + 1) count r r'
+
+theorem subdivOuter_agree (count : Nat) : ∀ (i : Nat) (l r mid l' r' mid' : List (Pos P)),
+    i + 1 ≤ count → SubRel count i l r mid l' r' mid' →
+    ∃ l2 r2 m2 l2' r2' m2', subdivOuter count i (l, r, mid) = .ok (l2, r2, m2) ∧
+      subdivOuter count i (l', r', mid') = .ok (l2', r2', m2') ∧
+      l2.length = l.length ∧ r2.length = r.length ∧ m2.length = mid.length ∧
+      l2'.length = l'.length ∧ r2'.length = r'.length ∧ m2'.length = mid'.length ∧
+      SubRel count 0 l2 r2 m2 l2' r2' m2' := by
+  intro i
+  induction i with
+  | zero =>
+    intro l r mid l' r' mid' _ h
+    exact ⟨l, r, mid, l', r', mid', rfl, rfl, rfl, rfl, rfl, rfl, rfl, rfl, h⟩
+  | succ i ih =>
+    intro l r mid l' r' mid' hi h
+    obtain ⟨m0, hm0, hm0'⟩ := h.am.read (j := 0) (Nat.le_refl _) (by omega) (by have := h.lm; omega)
+    obtain ⟨mi, hmi, hmi'⟩ := h.am.read (j := i + 1) (Nat.zero_le _) (by omega) (by have := h.lm; omega)
+    have hu1 := usub_eq count (i + 1) (by omega)
+    have hu2 := usub_eq (count - (i + 1)) 1 (by omega)
+    have hk : count - (i + 1) - 1 < count := by omega
+    have hsl := setI_eq l (count - (i + 1) - 1) m0 (by have := h.ll; omega)
+    have hsl' := setI_eq l' (count - (i + 1) - 1) m0 (by have := h.ll'; omega)
+    have hsr := setI_eq r (i + 1) mi (by have := h.lr; omega)
+    have hsr' := setI_eq r' (i + 1) mi (by have := h.lr'; omega)
+    obtain ⟨mm, mm', hin, hin', hlen, hlen', hagr⟩ :=
+      subdivInner_agree (i + 2) (i + 1) 0 mid mid' (by omega) (by have := h.lm; omega)
+        (by have := h.lm'; omega) h.am
+    have hrel : SubRel count i (l.set (count - (i + 1) - 1) m0) (r.set (i + 1) mi) mm
+        (l'.set (count - (i + 1) - 1) m0) (r'.set (i + 1) mi) mm' :=
+      { ll := by rw [List.length_set]; exact h.ll
+        lr := by rw [List.length_set]; exact h.lr
+        lm := by rw [hlen]; exact h.lm
+        ll' := by rw [List.length_set]; exact h.ll'
+        lr' := by rw [List.length_set]; exact h.lr'
+        lm' := by rw [hlen']; exact h.lm'
+        am := hagr.mono (Nat.le_refl _) (by omega)
+        al := h.al.set _ _ (by have := h.ll; omega) (by have := h.ll'; omega) 0 (count - 1 - i)
+          (fun k _ hk2 => by omega)
+        ar := h.ar.set _ _ (by have := h.lr; omega) (by have := h.lr'; omega) (i + 1) count
+          (fun k hk1 hk2 => by omega) }
+    obtain ⟨l2, r2, m2, l2', r2', m2', e1, e2, g1, g2, g3, g4, g5, g6, hr⟩ := ih _ _ _ _ _ _ (by omega) hrel
+    refine ⟨l2, r2, m2, l2', r2', m2', ?_, ?_, ?_, ?_, ?_, ?_, ?_, ?_, hr⟩
+    · simp only [subdivOuter, hm0, hu1, hu2, hsl, hmi, hsr, hin, Outcome.ok_bind]; exact e1
+    · simp only [subdivOuter, hm0', hu1, hu2, hsl', hmi', hsr', hin', Outcome.ok_bind]; exact e2
+    · rw [g1, List.length_set]
+    · rw [g2, List.length_set]
+    · rw [g3, hlen]
+    · rw [g4, List.length_set]
+    · rw [g5, List.length_set]
+    · rw [g6, hlen']
+
+/-- **`bezier_subdivide` reads only what it wrote**: on scratch buffers of sufficient length, whatever they
+hold, it succeeds, keeps their lengths, and the first `count` cells of `l` and of `r` afterwards depend on
+`points` only. -/
+theorem bezierSubdivide_agree (points l r mid l' r' mid' : List (Pos P)) (hc : 1 ≤ points.length)
+    (hl : points.length ≤ l.length) (hr : points.length ≤ r.length) (hm : points.length ≤ mid.length)
+    (hl' : points.length ≤ l'.length) (hr' : points.length ≤ r'.length) (hm' : points.length ≤ mid'.length) :
+    ∃ l2 r2 m2 l2' r2' m2', bezierSubdivide points l r mid = .ok (l2, r2, m2) ∧
+      bezierSubdivide points l' r' mid' = .ok (l2', r2', m2') ∧
+      l2.length = l.length ∧ r2.length = r.length ∧ m2.length = mid.length ∧
+      l2'.length = l'.length ∧ r2'.length = r'.length ∧ m2'.length = mid'.length ∧
+      l2.take points.length = l2'.take points.length ∧ r2.take points.length = r2'.take points.length := by
+  have hcp := show copyPrefix mid points points.length = .ok (points.take points.length ++ mid.drop points.length) by
+    simp [copyPrefix, hm]
+  have hcp' := show copyPrefix mid' points points.length = .ok (points.take points.length ++ mid'.drop points.length) by
+    simp [copyPrefix, hm']
+  have hlm : (points.take points.length ++ mid.drop points.length).length = mid.length := by
+    simp; omega
+  have hlm' : (points.take points.length ++ mid'.drop points.length).length = mid'.length := by
+    simp; omega
+  have hagr : Agr 0 (points.length - 1 + 1) (points.take points.length ++ mid.drop points.length)
+      (points.take points.length ++ mid'.drop points.length) := by
+    intro j _ hj
+    rw [List.getElem?_append_left (by simp; omega), List.getElem?_append_left (by simp; omega)]
+  have hrel : SubRel points.length (points.length - 1) l r
+      (points.take points.length ++ mid.drop points.length) l' r'
+      (points.take points.length ++ mid'.drop points.length) :=
+    { ll := hl, lr := hr, lm := by rw [hlm]; exact hm, ll' := hl', lr' := hr', lm' := by rw [hlm']; exact hm'
+      am := hagr
+      al := by
+        have : points.length - 1 - (points.length - 1) = 0 := by omega
+        rw [this]; exact Agr.triv 0 _ _
+      ar := by
+        have : points.length - 1 + 1 = points.length := by omega
+        rw [this]; exact Agr.triv _ _ _ }
+  obtain ⟨l2, r2, m2, l2', r2', m2', e1, e2, g1, g2, g3, g4, g5, g6, hrl⟩ :=
+    subdivOuter_agree points.length (points.length - 1) _ _ _ _ _ _ (by omega) hrel
+  obtain ⟨m0, hm0, hm0'⟩ := hrl.am.read (j := 0) (Nat.le_refl _) (by omega) (by have := hrl.lm; omega)
+  have hu := usub_eq points.length 1 hc
+  have hsl := setI_eq l2 (points.length - 1) m0 (by have := hrl.ll; omega)
+  have hsl' := setI_eq l2' (points.length - 1) m0 (by have := hrl.ll'; omega)
+  have hsr := setI_eq r2 0 m0 (by have := hrl.lr; omega)
+  have hsr' := setI_eq r2' 0 m0 (by have := hrl.lr'; omega)
+  refine ⟨l2.set (points.length - 1) m0, r2.set 0 m0, m2, l2'.set (points.length - 1) m0, r2'.set 0 m0, m2',
+    ?_, ?_, ?_, ?_, ?_, ?_, ?_, ?_, ?_, ?_⟩
+  · simp only [bezierSubdivide, hcp, e1, hm0, hu, hsl, hsr, Outcome.ok_bind, Outcome.pure_eq_ok]
+  · simp only [bezierSubdivide, hcp', e2, hm0', hu, hsl', hsr', Outcome.ok_bind, Outcome.pure_eq_ok]
+  · rw [List.length_set, g1]
+  · rw [List.length_set, g2]
+  · rw [g3, hlm]
+  · rw [List.length_set, g4]
+  · rw [List.length_set, g5]
+  · rw [g6, hlm']
+  · apply Agr.take_eq
+    have := hrl.al
+    exact this.set _ _ (by have := hrl.ll; omega) (by have := hrl.ll'; omega) 0 points.length
+      (fun k _ hk2 => by omega)
+  · apply Agr.take_eq
+    have := hrl.ar
+    exact this.set _ _ (by have := hrl.lr; omega) (by have := hrl.lr'; omega) 0 points.length
+      (fun k _ hk2 => by omega)
+
+/-- **`bezier_approximate` reads only what it wrote**: the pushed points depend on `points` only. -/
+theorem bezierApproximate_agree (points l r mid l' r' mid' : List (Pos P)) (hc : 1 ≤ points.length)
+    (hl : points.length ≤ l.length) (hr : points.length ≤ r.length) (hm : points.length ≤ mid.length)
+    (hl' : points.length ≤ l'.length) (hr' : points.length ≤ r'.length) (hm' : points.length ≤ mid'.length) :
+    ∃ piece l2 r2 m2 l2' r2' m2', bezierApproximate points l r mid = .ok (piece, l2, r2, m2) ∧
+      bezierApproximate points l' r' mid' = .ok (piece, l2', r2', m2') ∧
+      l2.length = l.length ∧ r2.length = r.length ∧ m2.length = mid.length ∧
+      l2'.length = l'.length ∧ r2'.length = r'.length ∧ m2'.length = mid'.length := by
+  obtain ⟨l2, r2, m2, l2', r2', m2', e1, e2, g1, g2, g3, g4, g5, g6, tl, tr⟩ :=
+    bezierSubdivide_agree points l r mid l' r' mid' hc hl hr hm hl' hr' hm'
+  have hp0 := getI_eq points 0 (by omega)
+  have s1 := sliceTo_eq l2 points.length (by omega)
+  have s1' := sliceTo_eq l2' points.length (by omega)
+  have s2 : sliceFromTo r2 1 points.length = .ok ((r2.take points.length).drop 1) := by
+    simp [sliceFromTo, hc]; omega
+  have s2' : sliceFromTo r2' 1 points.length = .ok ((r2'.take points.length).drop 1) := by
+    simp [sliceFromTo, hc]; omega
+  refine ⟨points[0] :: approxTriples ((l2.take points.length ++ (r2.take points.length).drop 1).drop 1),
+    l2, r2, m2, l2', r2', m2', ?_, ?_, g1, g2, g3, g4, g5, g6⟩
+  · simp only [bezierApproximate, e1, hp0, s1, s2, Outcome.ok_bind, Outcome.pure_eq_ok]
+  · simp only [bezierApproximate, e2, hp0, s1', s2', Outcome.ok_bind, Outcome.pure_eq_ok, tl, tr]
+
+/-! ### the flattening loop -/
+
+/-- all four scratch vectors hold at least `p` cells. -/
+def BezierBuffers.Big (b : BezierBuffers P) (p : Nat) : Prop :=
+  p ≤ b.left.length ∧ p ≤ b.right.length ∧ p ≤ b.midpoints.length ∧ p ≤ b.leftChild.length
+
+/-- same vector lengths. -/
+def BezierBuffers.SameLen (b b2 : BezierBuffers P) : Prop :=
+  b2.left.length = b.left.length ∧ b2.right.length = b.right.length ∧
+  b2.midpoints.length = b.midpoints.length ∧ b2.leftChild.length = b.leftChild.length
+
+/-- two runs of the loop agree: same error, or same pushed points and unchanged vector lengths. -/
+def LoopAgree (b b' : BezierBuffers P) (r r' : Outcome (List (Pos P) × BezierBuffers P)) : Prop :=
+  match r, r' with
+  | .ok (o, b2), .ok (o', b2') => o = o' ∧ b.SameLen b2 ∧ b'.SameLen b2'
+  | .error e, .error e' => e = e'
+  | _, _ => False
+
+theorem BezierBuffers.SameLen.trans {b c d : BezierBuffers P} (h : b.SameLen c) (h' : c.SameLen d) :
+    b.SameLen d := by
+  obtain ⟨a1, a2, a3, a4⟩ := h
+  obtain ⟨c1, c2, c3, c4⟩ := h'
+  exact ⟨by rw [c1, a1], by rw [c2, a2], by rw [c3, a3], by rw [c4, a4]⟩
+
+theorem LoopAgree.weaken {b b' c c' : BezierBuffers P} {r r' : Outcome (List (Pos P) × BezierBuffers P)}
+    (h : LoopAgree c c' r r') (hc : b.SameLen c) (hc' : b'.SameLen c') : LoopAgree b b' r r' := by
+  cases r <;> cases r' <;> simp only [LoopAgree] at h ⊢
+  all_goals first | exact h | exact ⟨h.1, hc.trans h.2.1, hc'.trans h.2.2⟩
+
+theorem LoopAgree.push (piece : List (Pos P)) {b b' c c' : BezierBuffers P}
+    {r r' : Outcome (List (Pos P) × BezierBuffers P)}
+    (h : LoopAgree c c' r r') (hc : b.SameLen c) (hc' : b'.SameLen c') :
+    LoopAgree b b' (do let x ← r; pure (piece ++ x.1, x.2)) (do let x ← r'; pure (piece ++ x.1, x.2)) := by
+  have h := h.weaken hc hc'
+  cases r <;> cases r' <;>
+    simp only [LoopAgree, Outcome.ok_bind, Outcome.error_bind, Outcome.pure_eq_ok] at h ⊢
+  all_goals first | exact h | exact ⟨by rw [h.1], h.2.1, h.2.2⟩
+
+theorem LoopAgree.finish {b b' : BezierBuffers P} (hw : b.WF) (hw' : b'.WF) (last : Pos P)
+    {r r' : Outcome (List (Pos P) × BezierBuffers P)} (h : LoopAgree b b' r r') :
+    BezAgree (do let x ← r; pure (x.1 ++ [last], x.2)) (do let x ← r'; pure (x.1 ++ [last], x.2)) := by
+  obtain ⟨w1, w2, w3⟩ := hw
+  obtain ⟨w1', w2', w3'⟩ := hw'
+  cases r <;> cases r' <;>
+    simp only [LoopAgree, BezAgree, Outcome.ok_bind, Outcome.error_bind, Outcome.pure_eq_ok] at h ⊢
+  all_goals first
+    | exact h
+    | (obtain ⟨ho, ⟨s1, s2, s3, s4⟩, ⟨s1', s2', s3', s4'⟩⟩ := h
+       exact ⟨by rw [ho], ⟨by rw [s2, s1, w1], by rw [s3, s1, w2], by rw [s4, s1, w3]⟩,
+         ⟨by rw [s2', s1', w1'], by rw [s3', s1', w2'], by rw [s4', s1', w3']⟩⟩)
+
+theorem bsplineLoop_agree (p : Nat) (hp : 1 ≤ p) : ∀ (fuel : Nat) (stack free : List (List (Pos P)))
+    (b b' : BezierBuffers P), (∀ x ∈ stack, x.length = p) → (∀ x ∈ free, x.length = p) →
+    b.Big p → b'.Big p →
+    LoopAgree b b' (bsplineLoop p fuel { stack := stack, free := free, bufs := b })
+      (bsplineLoop p fuel { stack := stack, free := free, bufs := b' }) := by
+  intro fuel
+  induction fuel with
+  | zero =>
+    intro stack free b b' _ _ _ _
+    cases stack with
+    | nil => exact ⟨rfl, ⟨rfl, rfl, rfl, rfl⟩, ⟨rfl, rfl, rfl, rfl⟩⟩
+    | cons x t => rfl
+  | succ fuel ih =>
+    intro stack free b b' hst hfr hb hb'
+    cases stack with
+    | nil => exact ⟨rfl, ⟨rfl, rfl, rfl, rfl⟩, ⟨rfl, rfl, rfl, rfl⟩⟩
+    | cons parent rest =>
+      have hpl : parent.length = p := hst parent (by simp)
+      have hrest : ∀ x ∈ rest, x.length = p := fun x hx => hst x (by simp [hx])
+      obtain ⟨b1, b2, b3, b4⟩ := hb
+      obtain ⟨b1', b2', b3', b4'⟩ := hb'
+      by_cases hflat : bezierIsFlatEnough parent = true
+      · obtain ⟨piece, l2, r2, m2, l2', r2', m2', e1, e2, g1, g2, g3, g4, g5, g6⟩ :=
+          bezierApproximate_agree parent b.left b.right b.midpoints b'.left b'.right b'.midpoints
+            (by omega) (by omega) (by omega) (by omega) (by omega) (by omega) (by omega)
+        have hrec := ih rest (parent :: free)
+          { b with left := l2, right := r2, midpoints := m2 }
+          { b' with left := l2', right := r2', midpoints := m2' } hrest
+          (fun x hx => by
+            rcases List.mem_cons.mp hx with h | h
+            · rw [h]; exact hpl
+            · exact hfr x h)
+          ⟨by simp only; omega, by simp only; omega, by simp only; omega, b4⟩
+          ⟨by simp only; omega, by simp only; omega, by simp only; omega, b4'⟩
+        simp only [bsplineLoop, hflat, if_true, e1, e2, Outcome.ok_bind]
+        exact hrec.push piece ⟨g1, g2, g3, rfl⟩ ⟨g4, g5, g6, rfl⟩
+      · have hflat' : bezierIsFlatEnough parent = false := by
+          cases h : bezierIsFlatEnough parent
+          · rfl
+          · exact absurd h hflat
+        -- the right child: a recycled buffer or a fresh zeroed one, the same in both runs, of length `p`
+        have main : ∀ (rc : List (Pos P)) (fr2 : List (List (Pos P))), rc.length = p →
+            (∀ x ∈ fr2, x.length = p) →
+            LoopAgree b b'
+              (do let x ← bezierSubdivide parent b.leftChild rc b.midpoints
+                  let s ← sliceTo x.1 p
+                  let parent ← copyFromSlice parent s
+                  bsplineLoop p fuel ⟨parent :: x.2.1 :: rest, fr2, { b with leftChild := x.1, midpoints := x.2.2 }⟩)
+              (do let x ← bezierSubdivide parent b'.leftChild rc b'.midpoints
+                  let s ← sliceTo x.1 p
+                  let parent ← copyFromSlice parent s
+                  bsplineLoop p fuel ⟨parent :: x.2.1 :: rest, fr2, { b' with leftChild := x.1, midpoints := x.2.2 }⟩) := by
+          intro rc fr2 hrc hfr2
+          obtain ⟨lc2, rc2, m2, lc2', rc2', m2', e1, e2, g1, g2, g3, g4, g5, g6, tl, tr⟩ :=
+            bezierSubdivide_agree parent b.leftChild rc b.midpoints b'.leftChild rc b'.midpoints
+              (by omega) (by omega) (by omega) (by omega) (by omega) (by omega) (by omega)
+          rw [hpl] at tl tr
+          have hrc2 : rc2 = rc2' := by
+            rw [List.take_of_length_le (by omega), List.take_of_length_le (by omega)] at tr
+            exact tr
+          have s1 := sliceTo_eq lc2 p (by omega)
+          have s1' := sliceTo_eq lc2' p (by omega)
+          have c1 : copyFromSlice parent (lc2.take p) = .ok (lc2.take p) := by
+            simp [copyFromSlice, hpl]; omega
+          have c1' : copyFromSlice parent (lc2'.take p) = .ok (lc2'.take p) := by
+            simp [copyFromSlice, hpl]; omega
+          have hrec := ih (lc2.take p :: rc2 :: rest) fr2
+            { b with leftChild := lc2, midpoints := m2 }
+            { b' with leftChild := lc2', midpoints := m2' }
+            (fun x hx => by
+              rcases List.mem_cons.mp hx with h | h
+              · rw [h]; simp; omega
+              · rcases List.mem_cons.mp h with h | h
+                · rw [h]; omega
+                · exact hrest x h)
+            hfr2
+            ⟨b1, b2, by simp only; omega, by simp only; omega⟩
+            ⟨b1', b2', by simp only; omega, by simp only; omega⟩
+          simp only [e1, e2, s1, s1', c1, c1', Outcome.ok_bind]
+          rw [← tl, ← hrc2]
+          exact hrec.weaken ⟨rfl, rfl, g3, g1⟩ ⟨rfl, rfl, g6, g4⟩
+        simp only [bsplineLoop, hflat', Bool.false_eq_true, if_false]
+        cases free with
+        | nil => exact main _ [] (by simp) (by simp)
+        | cons f fr => exact main f fr (hfr f (by simp)) (fun x hx => hfr x (by simp [hx]))
+
+/-- **`approximate_bezier` is pure in its scratch buffers** — for every fuel, every arithmetic, every control
+polygon with at least two points and all well-formed buffers, whatever they hold (including the recycled
+`free_bufs` right-child buffers, which are the same in both runs because they derive from the control points). -/
+theorem bezierPure (fuel : Nat) : BezierPure P fuel := by
+  intro pts h2 b b' hb hb'
+  have hw := BezierBuffers.extendExact_wf b pts.length hb
+  have hw' := BezierBuffers.extendExact_wf b' pts.length hb'
+  have hlen := BezierBuffers.extendExact_len b pts.length
+  have hlen' := BezierBuffers.extendExact_len b' pts.length
+  have big : (b.extendExact pts.length).Big pts.length := by
+    obtain ⟨w1, w2, w3⟩ := hw
+    exact ⟨hlen, by omega, by omega, by omega⟩
+  have big' : (b'.extendExact pts.length).Big pts.length := by
+    obtain ⟨w1, w2, w3⟩ := hw'
+    exact ⟨hlen', by omega, by omega, by omega⟩
+  have key := bsplineLoop_agree pts.length (by omega) fuel [pts] [] _ _
+    (fun x hx => by simp at hx; rw [hx]) (fun x hx => by simp at hx) big big'
+  unfold approximateBezier approximateBspline
+  have hu := usub_eq pts.length 1 (by omega)
+  have hg := getI_eq pts (pts.length - 1) (by omega)
+  simp only [hu, hg, Outcome.ok_bind]
+  exact key.finish hw hw' _
 
 end Rosu
